@@ -11,7 +11,7 @@ struct SceneGen {
     std::map<int, GS> shapes; int nextShape = 0;
     std::map<int, GC> conns; int nextConn = 0;
     std::map<int, GJ> junctions; int nextJunction = 0;
-    double gap = 5, endMargin = 1, edgePoints = 0, edgeLines = 0;
+    double gap = 5, endMargin = 1, edgePoints = 0, edgeLines = 0, scanCompanion = 0;
     bool polygons = false, touching = false, dirRestrict = false, checkpoints = false, allowDeleteAttached = true, allowCover = false;
     std::function<void(SceneGen &, int, Json &)> pinHook;
     std::function<bool(SceneGen &, Json &, GC &, int)> endHook;
@@ -36,7 +36,7 @@ struct RouterGenCfg {
     std::map<int, bool> options;
     std::string styleExtra;
     bool selective = true, invis = true, lees = true;
-    double gap = 5, endMargin = 1, edgePoints = 0, edgeLines = 0;
+    double gap = 5, endMargin = 1, edgePoints = 0, edgeLines = 0, scanCompanion = 0;
     bool polygons = false, touching = false, dirRestrict = false, checkpoints = false, cancelFaults = false, outputOps = false, trailingEdits = false, allowDeleteAttached = true, allowCover = false;
     int minShapes = 2, maxShapes = 8, minConns = 1, maxConns = 6, minSteps = 2, maxSteps = 7, maxEditsPerTxn = 3;
     int wMove = 60, wDelete = 10, wAdd = 8, wMoveEnd = 8, wReshape = 6, wAddConn = 4, wDelConn = 4;
